@@ -91,9 +91,15 @@ m = {
  "hooks": {"guard": "none", "enable": "no source hooks: the checks observe through the public API, the directory tree and system calls (ptrace)",
            "baseline_off_cmd": "cd /repo && cargo test --workspace --no-fail-fast --offline", "source_commits": [], "add_only": True},
  "engines": [{"name": PBT, "path": "/verif/harness", "serves_properties": sorted(CHECKS),
-              "kind_free_text": "Rust harness (proptest) built twice against /repo (async-std and tokio): operation language + interpreter, reference model, independent format codec, damage library, generic driver with bounded-exhaustive families, seeded random search, shrinking, replay files, evidence"}],
+              "kind_free_text": "Rust harness (proptest) built twice against /repo (async-std and tokio): operation language + interpreter, reference model, independent format codec, damage library, generic driver with regress replays, bounded-exhaustive families, seeded parallel random search, shrinking, replay files, evidence, watchdog"},
+             {"name": "ptsup", "path": "/verif/ptsup/ptsup.c", "serves_properties": ["C03", "C04", "C07", "C13", "C14", "C15", "C20"],
+              "kind_free_text": "ptrace supervisor: holds subject processes at every filesystem system call inside an operation window; the generated case decides continue / kill / torn write / short write / errno / which process runs next"},
+             {"name": "refcache", "path": "/verif/ref/refcache.py", "serves_properties": ["C17"],
+              "kind_free_text": "independent Python implementation of the on-disk format (hashlib/json): reader, writer, layout validator; JSON-lines server"},
+             {"name": "cvh-fuzz", "path": "/verif/harness/fuzz", "serves_properties": ["C06", "C20", "C02", "C08"],
+              "kind_free_text": "cargo-fuzz / libFuzzer targets fz_bucket and fz_program with the semantic oracle (reference reader / reference model) inside the target; fixed-work campaigns in the thorough tier"}],
  "checks": checks,
- "notes": "Every check builds the harness against /repo's current working tree (content-hash stamp forces recompilation). VERIF_SEED selects the random part; exhaustive families do not depend on it. Exit 2 = inconclusive (build failure, watchdog, generator health).",
+ "notes": "Every check builds the harness against /repo's current working tree (content-hash stamp forces recompilation). VERIF_SEED selects the random part; exhaustive families do not depend on it. Exit 2 = inconclusive (build failure, watchdog, generator health). tools/selftest.py re-runs the sensitivity test over seeded/ (47 seeded changes, all caught by the quick tier).",
  "not_applicable": [{"property_id": p["id"], "reason": "check not built yet (in progress, see DESIGN.md section 5)"} for p in props if p["id"] not in CHECKS],
 }
 json.dump(m, open(os.path.join(V, "MANIFEST.json"), "w"), indent=1)
